@@ -460,10 +460,20 @@ def _read_request(
     # is shared across requests, so a rejected request that left bytes
     # in the IPC stream would corrupt the next request's framing and
     # tear down the worker connection.
-    try:
-        _drain_stream(reader)
-    except OSError as exc:
-        raise _as_framing_error(exc) from exc
+    trailing_invalid: IPCError | None = None
+    while True:
+        try:
+            reader.read_next_batch()
+        except StopIteration:
+            break
+        except OSError as exc:
+            raise _as_framing_error(exc) from exc
+        except IPCError as exc:
+            # A further batch in the request stream fails validation.  Keep
+            # consuming up to the end of the stream (alignment), then refuse.
+            trailing_invalid = exc
+    if trailing_invalid is not None:
+        raise RpcError("ProtocolError", f"Request stream holds a batch that failed validation: {trailing_invalid}", "")
     _current_request_metadata.set(custom_metadata)
     # Stash the batch for access-log enrichment -- but only when the
     # transport has not already captured the raw wire bytes, which are
